@@ -724,10 +724,10 @@ def model2d_cases(ctx):
                 meta.append({'kind': kind, 'method': name, 'threads': nt, 'schedule': 'serial', 'two_d': True})
                 ctx.case(('serial2d', kind, name, nt), kind=f'program2d:{name}:{kind}')
                 if nt == 2:
-                    scheds = list(interleavings(ctx.n(4, 6), ctx.n(4, 6))) if name == 'rolling_ball' else []
+                    scheds = list(interleavings(ctx.n(3, 5), ctx.n(3, 5))) if name == 'rolling_ball' else []
                     scheds += [[0] * k + [1] * (steps + 5) for k in range(0, steps + 1)]
                     scheds += [[ctx.rng.randrange(2) for _ in range(2 * steps)] for _ in range(ctx.n(3, 20))]
-                    if kind != 'xz' and name in ('psalsa', 'rolling_ball'):
+                    if kind != 'xz' and (name == 'psalsa' or (name == 'rolling_ball' and ctx.tier == 'thorough')):
                         # two pre-emptions: thread 0 runs a accesses, thread 1 is parked after b accesses (inside
                         # its prologue / the _shape setter), thread 0 continues through its body, then thread 1
                         pa = max([i for i, e in enumerate([e for e in ser['events'][0] if e[0] in 'RW']) if e[0] == 'W'], default=2) + 1
@@ -1180,7 +1180,7 @@ def heap_cases(ctx):
         if ctx.tier == 'thorough' or muts:
             stride = (1 if muts else 3) if ctx.tier == 'thorough' else max(1, count // 60)
         else:
-            stride = max(1, count // 28)
+            stride = max(1, count // 16)
         ks.update(range(1 + ctx.rng.randrange(stride), count + 1, stride))
         found_fail = 0
         for k in sorted(ks):
@@ -1206,6 +1206,101 @@ def heap_cases(ctx):
                          f'thread 1 runs its whole call: ' + '; '.join(msgs),
                          {'granularity': 'line', 'kind': kind, 'method': name, 'pause_at': k, 'two_d': two_d, 'threads': 2, 'outcomes': outs})
     ctx.extra['line_preemption_runs'] = nrun
+
+
+
+# ------------------------------------------------------------------------------------------------
+# non-default CONFIGURATION of the shared fitter (output_dtype, check_finite, banded_solver, unsorted x):
+# a transient store to a configuration attribute by one thread must not change any other thread's result
+
+CFG_METHODS = {   # optimizers / wrappers (they call other methods of the same object) and one user per family
+    'collab_pls': {'method': 'asls', 'method_kwargs': {'lam': 1e3, 'max_iter': 3}},
+    'custom_bc': {'method': 'modpoly', 'method_kwargs': {'poly_order': 2, 'max_iter': 3}},
+    'optimize_extended_range': {'method': 'modpoly', 'min_value': 2, 'max_value': 3, 'method_kwargs': {'max_iter': 3}},
+    'asls': {'lam': 1e3, 'max_iter': 3}, 'modpoly': {'poly_order': 2, 'max_iter': 3},
+    'pspline_asls': {'num_knots': 8, 'lam': 10, 'max_iter': 3}, 'mor': {'half_window': 4},
+}
+
+
+def make_cfg_obj(kind, two_d=False):
+    from pybaselines import Baseline, Baseline2D
+    x = xgrid()
+    perm = np.argsort(np.sin(np.arange(N1) * 1.7))          # a fixed non-involutive shuffle
+    opts = {'f32': dict(output_dtype=np.float32), 'int': dict(output_dtype=int), 'nofinite': dict(check_finite=False),
+            'bs3': {}, 'unsorted': {}, 'rej': dict(output_dtype=np.float32),
+            'mix': dict(output_dtype=np.float32, check_finite=False)}[kind]
+    if two_d:
+        f = Baseline2D(np.linspace(0, 5, 12), np.linspace(-1, 3, 10), **opts)
+    else:
+        f = Baseline(x[perm] if kind in ('unsorted', 'mix') else x, **opts)
+    if kind in ('bs3', 'mix'):
+        f.banded_solver = 3
+    if kind == 'rej' and not two_d:
+        # a history of REJECTED calls: raised up front, and raised deep inside an optimizer after its own set-up
+        for call in (lambda: f.asls(ydata(97), lam=-1), lambda: f.modpoly(ydata(97)[:-3]),
+                     lambda: f.collab_pls(cfg_data('collab_pls', 97), method='asls', method_kwargs={'lam': -1}),
+                     lambda: f.custom_bc(ydata(97), method='no_such_method')):
+            try:
+                with warnings.catch_warnings():
+                    warnings.simplefilter('ignore')
+                    call()
+            except Exception:      # noqa: the rejection is the point
+                pass
+    return f
+
+
+def cfg_data(name, i, two_d=False):
+    y = ydata2(i) if two_d else ydata(i)
+    if i == 1:      # the second thread passes a non-default memory layout (negative strides / Fortran order), same values
+        y = np.asfortranarray(y) if two_d else np.ascontiguousarray(y[::-1])[::-1]
+    return np.array([y, y * 1.5 + 1]) if name == 'collab_pls' else y
+
+
+def config_cases(ctx):
+    quick = ctx.tier == 'quick'
+    groups = []
+    for kind in (('f32', 'int', 'mix', 'rej') if quick else ('f32', 'int', 'nofinite', 'bs3', 'unsorted', 'mix', 'rej')):
+        for name in CFG_METHODS:
+            if quick and kind != 'f32' and name in ('mor', 'pspline_asls', 'asls', 'optimize_extended_range'):
+                continue
+            groups.append((False, kind, name))
+    groups += [(True, 'f32', 'collab_pls'), (True, 'f32', 'asls')]
+    nrun = 0
+    for two_d, kind, name in groups:
+        kw = dict(CFG_METHODS[name]) if not two_d else ({'method': 'asls', 'method_kwargs': {'lam': 1e2, 'max_iter': 2}} if name == 'collab_pls' else {'lam': 1e2, 'max_iter': 2})
+        ys = [cfg_data(name, i, two_d) for i in range(2)]
+        f = make_cfg_obj(kind, two_d)
+        ser, steps = [], 0
+        for i in range(2):
+            r, ev, un = T.run_solo(call_job(f, name, kw, ys[i]), [f], track_config=True)
+            ser.append(r)
+            if i == 0:
+                steps = sum(1 for e in ev if e[0] in 'RW')
+            if un:
+                ctx.broke('correspondence:unmodelled-shared-write', f'{name} on a {kind} object: stores to {sorted(set(un))[:4]} during a call')
+        if ser[0][0] != 'ok':
+            ctx.note(f'config family: {name} on {kind} raises serially ({ser[0][1]}), skipped')
+            continue
+        stride = max(1, steps // (16 if quick else 400))
+        for k in range(0, steps + 1, stride):
+            f = make_cfg_obj(kind, two_d)
+            try:
+                con = T.run_concurrent([f], [call_job(f, name, kw, ys[i]) for i in range(2)], [0] * k + [1] * 100000, track_config=True)
+            except T.SchedulerBroken as e:
+                ctx.broke('scheduler', f'config family {name}: {e}')
+                break
+            nrun += 1
+            outs = [outcome_code(con['results'][i], ser[i]) for i in range(2)]
+            ctx.case(('config', two_d, kind, name, k), nontrivial=k > 0, kind=f'config:{kind}:{name}')
+            if any(outs):
+                dt = [str(getattr(r[1][0], 'dtype', '?')) if r and r[0] == 'ok' else '-' for r in con['results']]
+                ctx.fail(f'race:{"2d" if two_d else "1d"}:{name}:config-{kind}',
+                         f'{"2-D " if two_d else ""}{name} on a shared object with non-default configuration ({kind}): thread 0 pre-empted after {k} of {steps} '
+                         f'accesses (configuration attributes included), thread 1 runs its whole call: outcomes {outs}, baseline dtypes {dt} '
+                         f'(serial: {[str(getattr(r[1][0], "dtype", "?")) for r in ser]})',
+                         {'config': kind, 'method': name, 'k': k, 'two_d': two_d, 'threads': 2, 'outcomes': outs})
+                break
+    ctx.extra['config_family_runs'] = nrun
 
 
 
@@ -1253,6 +1348,7 @@ def run(ctx):
     bad4 = spline2d_cases(ctx)
     first_call_sweep(ctx)
     heap_cases(ctx)
+    config_cases(ctx)
     t3 = time.time()
     budget = 1 if (ok and not ctx.broken and ctx.tier == 'quick') else 4
     oracle(ctx, budget)
@@ -1272,6 +1368,19 @@ def replay(rep):
         return 1
     two_d = bool(case.get('two_d'))
     nt = int(case['threads'])
+    if 'config' in case:
+        name, kind, k = case['method'], case['config'], int(case['k'])
+        kw = dict(CFG_METHODS[name]) if not two_d else ({'method': 'asls', 'method_kwargs': {'lam': 1e2, 'max_iter': 2}} if name == 'collab_pls' else {'lam': 1e2, 'max_iter': 2})
+        ys = [cfg_data(name, i, two_d) for i in range(2)]
+        g = make_cfg_obj(kind, two_d)
+        ser = [T.run_solo(call_job(g, name, kw, ys[i]), [g], track_config=True)[0] for i in range(2)]
+        f = make_cfg_obj(kind, two_d)
+        con = T.run_concurrent([f], [call_job(f, name, kw, ys[i]) for i in range(2)], [0] * k + [1] * 100000, track_config=True)
+        outs = [outcome_code(con['results'][i], ser[i]) for i in range(2)]
+        for i in range(2):
+            r = con['results'][i]
+            print(f'thread {i}: outcome {outs[i]}', (r[1] if r[0] == 'exc' else f'dtype {r[1][0].dtype} (serial {ser[i][1][0].dtype})') if r else '')
+        return 1 if any(outs) else 0
     if case.get('granularity') == 'line':
         r, outs = line_run(two_d, case['method'], case['kind'], int(case['pause_at']))
         for i, rr in enumerate((r.res_a, r.res_b)):
